@@ -21,8 +21,38 @@ fn raw_cif(p: &PDB) -> Vec<u8> {
 /// diagnostic triggers for PDB text (each produces a known diagnostic class)
 fn mutate_pdb(rng: &mut Rng, text: &str) -> (String, &'static str) {
     let mut lines: Vec<String> = text.lines().map(str::to_string).collect();
-    let k = rng.below(9);
+    let k = rng.below(12);
     let label = match k {
+        9 => {
+            // MASTER record with each checksum independently right or wrong (several diagnostics of one family, two levels)
+            let n_atoms = lines.iter().filter(|l| l.starts_with("ATOM") || l.starts_with("HETATM")).count();
+            let n_remark = lines.iter().filter(|l| l.starts_with("REMARK")).count();
+            let wrong = |r: &mut Rng, v: usize| if r.chance(1, 2) { v } else { v + 1 + r.below(3) };
+            let (a, b2, c, d) = (wrong(rng, n_remark), if rng.chance(1, 2) { 0 } else { 1 + rng.below(4) }, wrong(rng, 0) , wrong(rng, n_atoms));
+            let at = lines.iter().position(|l| l.starts_with("END")).unwrap_or(lines.len());
+            lines.insert(at, format!("MASTER    {a:5}{b2:5}    0    0    0    0    0{c:5}{d:5}    0    0    0"));
+            "master-variants"
+        }
+        10 | 11 => {
+            // later models that differ from the first in atom total and / or in the ATOM/HETATM split
+            let model_starts: Vec<usize> = lines.iter().enumerate().filter(|(_, l)| l.starts_with("MODEL")).map(|(i, _)| i).collect();
+            for (mi, start) in model_starts.iter().enumerate().skip(1) {
+                let end = model_starts.get(mi + 1).copied().unwrap_or(lines.len());
+                let atoms: Vec<usize> = (*start..end).filter(|i| lines[*i].starts_with("ATOM") || lines[*i].starts_with("HETATM")).collect();
+                if atoms.is_empty() {
+                    continue;
+                }
+                let victim = atoms[rng.below(atoms.len())];
+                if (mi + k) % 2 == 0 {
+                    lines[victim] = String::new();
+                } else if lines[victim].starts_with("ATOM") {
+                    lines[victim] = format!("HETATM{}", &lines[victim][6..]);
+                } else {
+                    lines[victim] = format!("ATOM  {}", &lines[victim][6..]);
+                }
+            }
+            "models-differ"
+        }
         0 => {
             lines.insert(0, format!("REMARK   2 {}", "X".repeat(75)));
             "long-remark"
@@ -90,7 +120,7 @@ pub fn run(seed: u64, count: usize, out: &mut Out, tmp: &str) {
     // 2. reader gate + cross-level comparison
     let mut rng = Rng::new(seed);
     for i in 0..count {
-        let sh = gen::Shape { max_models: 2, elements_known: true, ..Default::default() };
+        let sh = gen::Shape { max_models: if i % 4 == 0 { 3 } else { 2 }, elements_known: true, ..Default::default() };
         let mut p = gen::structure(&mut rng, &sh);
         if rng.chance(1, 2) {
             p.unit_cell = Some(UnitCell::new(10.0, 20.0, 30.0, 90.0, 90.0, 90.0));
